@@ -444,7 +444,7 @@ specialise(
     "C03",
     "b.cell-kinds",
     c03_cells,
-    {"cell": list(range(len(CELLS_B))), "nc": [1], "nr": [0, 1], "nt": [0, 1]},
+    {"cell": list(range(len(CELLS_B))), "who": [0], "nc": [1], "nr": [0, 1], "nt": [0, 1]},
     reach_if=lambda fx: fx["nr"] == 0 and fx["nt"] == 0,
     timeout=400,
     kernel=K + ("pyxform.survey:Survey.insert_output_values", "pyxform.question:MultipleChoiceQuestion.build_xml", "pyxform.section:RepeatingSection.xml_control", "pyxform.survey_element:SurveyElement.get_setvalue_node_for_dynamic_default", "pyxform.survey:Survey._generate_last_saved_instance"),
@@ -459,14 +459,29 @@ specialise(
     "b.deep-chains",
     c03_cells,
     {"cell": [0], "who": [0], "nc": [1, 2], "nr": [0, 1, 2], "nt": [0, 1, 2]},
-    skip_if=lambda fx: fx["nc"] == 1 and fx["nr"] <= 1 and fx["nt"] <= 1,
+    skip_if=lambda fx: (fx["nc"] == 1 and fx["nr"] <= 1 and fx["nt"] <= 1) or fx["nc"] + fx["nr"] + fx["nt"] > 4,
     reach_if=lambda fx: fx["nr"] == 0 and fx["nt"] == 0,
     timeout=600,
     kernel=_KB,
     shims=("S1", "S2", "S4"),
     symbolic="group/repeat kind of every section on the common, referrer and target chains (up to 6 symbolic bits: the solver branches over every kind assignment, e.g. repeat > repeat > repeat referring into a group of the outer repeat) and a label tracer",
-    bounds="relevant cell; chain lengths common 1-2, referrer 0-2, target 0-2 fixed per instance (nesting depth up to 6)",
+    bounds="relevant cell; chain lengths common 1-2, referrer 0-2, target 0-2 fixed per instance, at most 4 sections in total (deeper: thorough tier)",
     weight=120,
+)
+specialise(
+    "C03",
+    "b.deep-chains",
+    c03_cells,
+    {"cell": [0], "who": [0], "nc": [1, 2], "nr": [0, 1, 2], "nt": [0, 1, 2]},
+    skip_if=lambda fx: fx["nc"] + fx["nr"] + fx["nt"] <= 4,
+    reach_if=lambda fx: False,
+    tiers=("thorough",),
+    timeout=900,
+    kernel=_KB,
+    shims=("S1", "S2", "S4"),
+    symbolic="group/repeat kind of every section on the common, referrer and target chains (5-6 symbolic bits) and a label tracer",
+    bounds="relevant cell; 5-6 sections in total",
+    weight=500,
 )
 specialise(
     "C03",
@@ -498,7 +513,7 @@ specialise(
     "C03",
     "b.cell-kinds",
     c03_cells,
-    {"cell": list(range(len(CELLS_B))), "nc": [0, 2], "nr": [0, 1, 2], "nt": [0, 1, 2]},
+    {"cell": list(range(len(CELLS_B))), "who": [0], "nc": [0, 2], "nr": [0, 1, 2], "nt": [0, 1, 2]},
     reach_if=lambda fx: False,
     tiers=("thorough",),
     timeout=900,
